@@ -382,7 +382,7 @@ class TaskScenario(ScenarioData):
             # So we want end time between (successor_earliest - maxgap_hours) and (successor_earliest - gap_hours)
             # Ideally, end exactly at successor_earliest - gap_hours to minimize gap
 
-            desired_end = successor_earliest - timedelta(hours=gap_hours)
+            desired_end = self._offsetDate(successor_earliest, -gap_hours)
 
             # Work backwards from desired_end to find required start
             # For effort-based tasks, we need 'effort' hours of work before desired_end
@@ -457,6 +457,16 @@ class TaskScenario(ScenarioData):
         result_dt_4: datetime = result
         return result_dt_4
 
+    @staticmethod
+    def _offsetDate(date: datetime, hours: float) -> datetime:
+        """date + hours, clamped to the calendar: a gap of 9000 years lies beyond every window."""
+        from datetime import timedelta
+
+        try:
+            return date + timedelta(hours=hours)
+        except OverflowError:
+            return datetime.max if hours > 0 else datetime.min
+
     def schedule(self) -> bool:
         if self.scheduled:
             return True
@@ -514,7 +524,7 @@ class TaskScenario(ScenarioData):
                                 gap_hours = self._parse_duration(gapduration, calendar=True)
                                 from datetime import timedelta
 
-                                dep_time = dep_time + timedelta(hours=gap_hours)
+                                dep_time = self._offsetDate(dep_time, gap_hours)
                             elif gaplength:
                                 # gaplength is working time - need to find next working slot after gap
                                 gap_hours = self._parse_duration(gaplength)
@@ -541,6 +551,11 @@ class TaskScenario(ScenarioData):
                         delayed_start = self._computeMaxGapDelayedStart(earliest_start, effort)
                         if delayed_start > earliest_start:
                             earliest_start = delayed_start
+
+                    if earliest_start > self.project["end"]:
+                        # The dependency bound lies beyond the scheduling horizon: does not fit
+                        self.isRunAway = True
+                        return False
 
                     # Convert earliest_start to slot index
                     # If earliest_start is mid-slot, track the offset so we don't
@@ -590,7 +605,7 @@ class TaskScenario(ScenarioData):
                                     gap_hours = self._parse_duration(gapduration, calendar=True)
                                     from datetime import timedelta
 
-                                    pred_start = pred_start - timedelta(hours=gap_hours)
+                                    pred_start = self._offsetDate(pred_start, -gap_hours)
                                 if pred_start < latest_end:
                                     latest_end = pred_start
 
@@ -616,7 +631,7 @@ class TaskScenario(ScenarioData):
                         if gap_hours:
                             from datetime import timedelta
 
-                            succ_start = succ_start - timedelta(hours=gap_hours)
+                            succ_start = self._offsetDate(succ_start, -gap_hours)
                         if succ_start < latest_end:
                             latest_end = succ_start
 
